@@ -80,7 +80,7 @@ RegisteredFree(pl) == Has(pl, "aud") \/ (Has(pl, "sub") /\ pl.f["sub"].t # "s")
 \* The specified verifier.  aud / nonce are JStr(..) or NONE.  Result:
 \*   [v |-> "reject", why]           the draft / the property require rejection (stage `why`)
 \*   [v |-> "ok"|"free", claims]     acceptance is allowed and, if it happens, must return `claims`
-\*                                   ("free": inside the 120 s guard band, nothing asserted about acceptance)
+\*                                   ("free": between the certain zones of the clock interval, nothing asserted about acceptance)
 SpecVerify(m, rk, aud, nonce, t0, t1, ledger, keyFam, jwks) ==
   IF (aud = NONE) # (nonce = NONE) THEN [v |-> "reject", why |-> "args"]
   ELSE IF ~ParseOK(m) THEN [v |-> "reject", why |-> "parse"]
